@@ -7,7 +7,7 @@ the two budget fields in the linked module and over the emission sites."""
 import os
 from ..build import Broken
 from ..facts import Module, relpath, const_val
-from .. import ir, fin, rng
+from .. import aff, ir, fin, rng
 
 LEVEL = "other"
 PRIV = "tinyjambu_prng_state_p_t"
@@ -343,6 +343,13 @@ def guard_rule(ck, mod, offs, incs, label):
             emis.append((I, ("c", str(I.get("size")), 64)))
         elif I.op == "call" and (I.get("intrinsic") or "").startswith("llvm.mem") and I.call_args()[0] in derived:
             emis.append((I, I.call_args()[2]))
+        elif I.op == "call" and not (I.get("intrinsic") or "").startswith("llvm.") and any(a in derived for a in I.call_args()):
+            # the output buffer handed to a callee: a hash call that writes its 32-byte digest there is an emission like a copy
+            outarg = {"tinyjambu_hash": 0, "tinyjambu_hash_finalize": 1}.get(I.callee or "")
+            pos = [i_ for i_, a in enumerate(I.call_args()) if a in derived]
+            if outarg is None or pos != [outarg]:
+                raise Broken("tinyjambu_prng_generate hands the output buffer to %s: how much that callee writes per counter step is not analysed" % (I.callee or "an indirect callee"))
+            emis.append((I, ("c", "32", 64)))
     if not emis:
         raise Broken("no emission site (write to 'data') found in tinyjambu_prng_generate")
     inc_st = incs.get(f.name, [])
@@ -353,6 +360,9 @@ def guard_rule(ck, mod, offs, incs, label):
         where = relpath(E.where)
         # g1: length <= 32
         ub = upper_bound(f, ln, E.b)
+        if ub is None and not _grows_with_param(f, ln):
+            raise Broken("tinyjambu_prng_generate: no bound derived for the length %s of the emission at %s (neither bounded by the conditions on its path nor a plain function of the "
+                         "requested size): not decided" % (ln, where))
         ck.ob(ub is not None and ub <= 32, "R-C16-GUARD", f.name, "block-length#%d[%s]" % (n, label),
               "each emission writes at most 32 bytes (bound %s)" % ub,
               "an emission may write %s bytes per counter step (more than one 32-byte block)" % ("an unbounded number of" if ub is None else ub), where=where)
@@ -370,6 +380,7 @@ def guard_rule(ck, mod, offs, incs, label):
             if is_ld(A, c_off) or is_ld(B, c_off):
                 tests.append(I)
         direct = None
+        directs = []
         for T in tests:
             a, b = T.ops
             A, B = f.inst(a), f.inst(b)
@@ -388,7 +399,12 @@ def guard_rule(ck, mod, offs, incs, label):
             for bb in f.blocks:
                 be = ir.branch_edges(f, bb.id)
                 if be and be[0] == ("i", T.id):
-                    direct = (T, bb.id, be[1] if form else be[2], be[2] if form else be[1], A, B)
+                    directs.append((T, bb.id, be[1] if form else be[2], be[2] if form else be[1], A, B))
+        if directs:
+            # several emission sites may each have their own test: the one meant for this emission dominates it (innermost first)
+            dom = [d_ for d_ in directs if f.dominates(d_[0].id, E.id)]
+            inl = [d_ for d_ in dom if L != -1 and _in_loop(f, d_[0].b, L)]
+            direct = (inl or dom or directs)[-1]
         if direct:
             T, tb, reseed_succ, pass_succ, A, B = direct
             # per block: loads and test inside E's loop, and dominate E
@@ -482,12 +498,45 @@ def upper_bound(f, v, at_block, depth=0):
         return max(outs)
     if I.op in ("zext", "trunc"):
         return upper_bound(f, I.ops[0], at_block, depth + 1)
+    if I.op == "urem" and I.ops[1][0] == "c" and const_val(I.ops[1]) > 0:
+        return const_val(I.ops[1]) - 1
+    if I.op == "and" and (I.ops[0][0] == "c" or I.ops[1][0] == "c"):
+        return const_val(I.ops[0] if I.ops[0][0] == "c" else I.ops[1])
+    if I.op in ("udiv", "lshr") and I.ops[1][0] == "c":
+        b0 = upper_bound(f, I.ops[0], at_block, depth + 1)
+        if b0 is not None:
+            k = const_val(I.ops[1])
+            return b0 // k if (I.op == "udiv" and k) else (b0 >> k if I.op == "lshr" else None)
     if I.op == "call" and (I.get("intrinsic") or "").startswith("llvm.umin"):
         bs = [upper_bound(f, a, at_block, depth + 1) for a in I.call_args()]
         bs = [b for b in bs if b is not None]
         return min(bs) if bs else None
     conds = ir.conditions_at(f, at_block)
     return _bound_from_conds(f, v, conds)
+
+
+def _grows_with_param(f, v):
+    """is v the requested size itself (a size parameter plus/minus a constant, or a loop-carried remainder that starts as one):
+    a length that grows with the request, so that 'no bound found' means 'unbounded'"""
+    A = aff.Aff(f)
+    try:
+        val = A.value(tuple(v))
+    except Exception:
+        return False
+    syms = [s_ for s_ in val if s_ != 1]
+    if len(syms) != 1 or val[syms[0]] != 1:
+        return False
+    s_ = syms[0]
+    if isinstance(s_, tuple) and s_[0] == "a":
+        return True
+    if isinstance(s_, tuple) and s_[0] in ("phi", "rec", "hd") or (isinstance(s_, tuple) and s_[0] == "i"):
+        I = f.inst(("i", s_[1])) if isinstance(s_[1], int) else None
+        if I is not None and I.op == "phi":
+            for inc, pb in I.get("inc"):
+                inc = tuple(inc)
+                if inc[0] == "a":
+                    return True
+    return False
 
 
 def _bound_from_conds(f, v, conds):
